@@ -54,11 +54,17 @@ Kill(c) == /\ Cnt /\ Usable(c)
            /\ inst' = (IF TestMode THEN inst ELSE "dead")        \* test mode: Kill never kills the serving process
            /\ last' = <<"Kill", c, "done">> /\ UNCHANGED <<cell, haveCfg, cancelled>>
 
+\* the plugin process dies without any shutdown (crash, SIGKILL from outside): nothing it created is
+\* cleaned up -- in particular its Unix socket file stays on disk with nobody listening on it
+Crash == /\ Cnt /\ ~TestMode /\ inst = "alive"
+         /\ inst' = "dead" /\ last' = <<"Crash", "-", "killed">>
+         /\ UNCHANGED <<cell, haveCfg, c1, att, cancelled>>
+
 Cancel == /\ Cnt /\ TestMode /\ inst = "alive" /\ ~cancelled       \* the test context is cancelled: serving stops
           /\ cancelled' = TRUE /\ inst' = "dead" /\ last' = <<"Cancel", "-", "stopped">>
           /\ UNCHANGED <<cell, haveCfg, c1, att>>
 
-RNext == Start \/ Cancel \/ \E c \in AllClients : Kill(c) \/ Get(c) \/ Reattach(c) \/ (\E v \in Values : Set(c, v))
+RNext == Start \/ Cancel \/ Crash \/ \E c \in AllClients : Kill(c) \/ Get(c) \/ Reattach(c) \/ (\E v \in Values : Set(c, v))
 RSpec == RInit /\ [][RNext]_rv
 
 TestModeNeverKills == [][(TestMode /\ last'[1] = "Kill") => inst' = inst]_rv
